@@ -189,14 +189,15 @@ def reference(line):
 
 # ----------------------------------------------------------------- running
 
-def run_expr(line, binary, form):
+def run_expr(line, binary, form, pad=("", "")):
     sb = _sb
     sb.reset_log()
+    line = pad[0] + line + pad[1]
     if form == "c":
         r = run_cicada(sb, ["-c", line], timeout=15.0, binary=_bins[binary])
         out = r.out.decode("utf-8", "replace")
     else:
-        r = run_cicada(sb, ["-c", "vp_argv $(%s)" % line], timeout=15.0, binary=_bins[binary])
+        r = run_cicada(sb, ["-c", ("vp_argv `%s`" if form == "bq" else "vp_argv $(%s)") % line], timeout=15.0, binary=_bins[binary])
         recs = [x for x in sb.records() if x["name"] == "vp_argv"]
         out = (" ".join(recs[0]["argv"][1:]) if recs else "")
     return r, out
@@ -205,8 +206,9 @@ def run_expr(line, binary, form):
 def judge(case):
     line, binary, form = case["line"], case["binary"], case["form"]
     ref = reference(line)
-    r, out = run_expr(line, binary, form)
-    res = {"line": line, "binary": binary, "form": form, "rc": r.rc, "out": out[:80],
+    pad = tuple(case.get("pad", ("", "")))
+    r, out = run_expr(line, binary, form, pad)
+    res = {"line": line, "binary": binary, "form": form, "blanks_around": list(pad), "rc": r.rc, "out": out[:80],
            "stderr": r.err.decode("utf-8", "replace")[-200:], "reference": [str(x) for x in ref]}
     if r.timed_out:
         return ("violated" if r.diag and r.diag["kind"] == "spin" else "inconclusive", "C19:hang:%s" % binary, res)
@@ -220,6 +222,8 @@ def judge(case):
         try:
             got = float(txt) if ref[2] else int(txt)
         except ValueError:
+            if any(pad) and case.get("cls") == "flat":
+                return ("violated", "C19:not-evaluated:with-blanks-around-the-expression:form=%s" % form, res)
             return ("violated", "C19:not-evaluated:%s:%s" % ("float" if ref[2] else "int", case["feature"]), res)
         want = ref[1]
         if ref[2]:
@@ -303,7 +307,8 @@ def gen_cases(tier, seed):
             if i < k - 1:
                 parts.append(rng.choice("+-*/^"))
         s = " ".join(parts)
-        cases.append({"line": s, "binary": rng.choice(["debug", "nochecks"]), "form": rng.choice(["c", "sub", "sub"]),
+        cases.append({"line": s, "binary": rng.choice(["debug", "nochecks"]), "form": rng.choice(["c", "sub", "sub", "bq"]),
+                      "pad": rng.choice([("", ""), ("", ""), (" ", ""), ("", " "), (" ", " "), ("  ", "  ")]),
                       "feature": feature_of(s), "cls": "flat"})
     # every operator on every pair of boundary operands
     bounds = ["(-9223372036854775808)", "9223372036854775807", "(-1)", "0", "1", "(-9223372036854775807)", "2", "64"]
@@ -352,7 +357,7 @@ def run(tier, seed):
     rep = Report("C19", tier, seed)
     rep.rule = ("random expression trees (depth<=5) over boundary operands (0, +-1.., 2^31, 2^63-1, 2^63, 2^64, 10^19, "
                 "exponents 0..70, decimals), random spacing and redundant parentheses, on the debug and the "
-                "no-overflow-check binary, as `-c EXPR` and as `$(EXPR)`; all operator pairs (thorough: triples); every "
+                "no-overflow-check binary, as `-c EXPR`, `$(EXPR)` and backquoted, with and without blanks around the expression; all operator pairs (thorough: triples); every "
                 "string of length<=4 (thorough 5) over `0 1 9 . + - * / ^ ( ) blank` that the classification rule "
                 "accepts.  Non-trivial = contains an operator; distinct by (line, binary, form).")
     rep.assumptions = ["reference evaluator and PEG-equivalent parser in lib/c19.py", "float results compared within 4 ulp"]
